@@ -331,6 +331,16 @@ pub fn run_meta_case(seed: u64, worker: u64, index: u64) -> (Case, Option<Discre
                 stats.bump("meta_route_parked_clone");
             }
         }
+        // in half of the runs the clones are dropped and the original is finished explicitly through `verify()`:
+        // the verdict must be the one the base run got from its drop
+        let explicit_verify = rng.chance(1, 2);
+        if explicit_verify {
+            for i in 1..=k {
+                hist.push(Op::DropClone(i));
+            }
+            hist.push(Op::Verify);
+            stats.bump("meta_route_explicit_verify");
+        }
         let c2 = Case {
             partial: base.partial,
             clauses: base.clauses.clone(),
@@ -339,12 +349,17 @@ pub fn run_meta_case(seed: u64, worker: u64, index: u64) -> (Case, Option<Discre
         let t2 = run_case(&c2);
         stats.bump("meta_route");
         let calls2 = call_obs(&c2, &t2);
+        let final2 = if explicit_verify {
+            t2.ops.last().map(|o| o.obs.clone())
+        } else {
+            t2.final_original.clone()
+        };
         if let Some(d) = compare(
             "routing over clones",
             &base,
             (&base_calls, &base_final),
             &format!("{c2}"),
-            (&calls2, &t2.final_original),
+            (&calls2, &final2),
         ) {
             return (base, Some(d), stats);
         }
